@@ -109,3 +109,25 @@ def null_results(repo: str, kinds=None) -> List[dict]:
     if kinds:
         res = [r for r in res if r.get('kind') in kinds]
     return res
+
+
+def _coll_job(args):
+    repo, strict = args
+    try:
+        from .rules_coll import CollectionFlow
+        prog = program(repo)
+        cf = CollectionFlow(prog, strict).run()
+        return {'strict': strict, 'ok': True, 'findings': [finding_dict(f) for f in cf.findings.values()],
+                'sites': {k: sorted(v) for k, v in cf.sites.items()}, 'outcomes': cf.outcomes, 'notes': cf.notes,
+                'signature': cf.signature, 'positional': cf.positional, 'functions': sorted(cf.functions_entered)}
+    except AnalysisError as e:
+        return {'strict': strict, 'ok': False, 'error': f'collectionflow(strict={strict}): {e}'}
+    except Exception as e:
+        return {'strict': strict, 'ok': False, 'error': f'collectionflow(strict={strict}): internal error {type(e).__name__}: {e}\n' + traceback.format_exc()[-1500:]}
+
+
+def coll_results(repo: str):
+    key = 'coll:' + repo
+    if key not in _CACHE:
+        _CACHE[key] = [_coll_job((repo, True)), _coll_job((repo, False))]
+    return _CACHE[key]
